@@ -51,6 +51,8 @@ def enumerate_states(tier):
                     for var in VARIANTS:
                         if var == "mockall" and (asy or deps == "gen"):
                             continue   # (mockall's own derive: sync, non-generic traits only)
+                        if var == "maybe_send" and not asy:
+                            continue
                         states.append(dict(key="u_fn_%s_%s_%s_%s" % (word or "0", deps, "a" if asy else "s", var), mode="fn", word=word, deps=deps,
                                            asy=asy, variant=var))
         if word == "ii":
@@ -72,6 +74,9 @@ VARIANTS = {
     "export_false": ("entrait_export", ", export = false"),
     "export_opt": ("entrait", ", export = true, unimock = true"),
     "mockall": ("entrait", ", mockall"),
+    # qualifiers and the Send opt-out do not belong to the wiring: the un-mocked call must reach the function all the same
+    "unsafe": ("entrait", "", "unsafe "),
+    "maybe_send": ("entrait", ", ?Send"),
 }
 NAMES3 = ["fm", "fa", "fz"]      # declared in a non-alphabetical order on purpose
 
@@ -87,6 +92,8 @@ def render(s):
     A = "async " if asy else ""
     params = ", ".join("%s: %s" % (pname(k, i), KINDS[k][0]) for i, k in enumerate(word))
     sh = shows(word)
+    qual = (VARIANTS.get(s.get("variant")) or ("", "", ""))[2:3]
+    qual = qual[0] if qual else ""
     L = ["mod %s {" % key, "    use super::rt;", "    use ::unimock::*;", "    pub struct Cfg(pub i64);"]
 
     def fn_src(j, vis="pub "):
@@ -100,10 +107,10 @@ def render(s):
             head, first, dshow = "", "", ['"-"', '"-"']
         ps = ", ".join(x for x in [first, params] if x)
         body = ("rt::yield_once().await; " if asy else "") + "rt::ev(%s); %s" % (gen.fmt_call("E%d" % j, dshow + sh), gen.fmt_call("R%d" % j, sh))
-        return "%s%sfn %s%s(%s) -> String { %s }" % (vis, A, NAMES3[j], head, ps, body)
+        return "%s%s%sfn %s%s(%s) -> String { %s }" % (vis, A, qual, NAMES3[j], head, ps, body)
 
     if s["mode"] == "fn":
-        mac, extra = VARIANTS.get(s.get("variant"), ("entrait", ""))
+        mac, extra = VARIANTS.get(s.get("variant"), ("entrait", ""))[:2]
         L.append("    #[::entrait::%s(pub Tr, mock_api = TrMock%s%s)]" % (mac, ", no_deps" if deps == "nodeps" else "", extra))
         L.append("    " + fn_src(0))
         api = lambda j: "TrMock"
@@ -142,7 +149,8 @@ def render(s):
         perm = [pats[1], pats[0]] + pats[2:]
 
     def wrap(e):
-        return "rt::block_on(%s)" % e if asy else e
+        e = "rt::block_on(%s)" % e if asy else e
+        return "unsafe { %s }" % e if qual else e
     L.append("    pub fn client() {")
     for j, f in enumerate(names(s)):
         call = lambda recv: wrap("%s.%s(%s)" % (recv, f, ", ".join(args)))
